@@ -14,7 +14,14 @@ pub struct C32;
 pub static P: C32 = C32;
 
 /// HasSubtype edges (parent, child) of the DataType tree used; same table as `parentDT` in the model
-const DT_EDGES: [(u32, u32); 19] = [
+const DT_EDGES: [(u32, u32); 26] = [
+    (24, 13),
+    (24, 14),
+    (24, 16),
+    (24, 18),
+    (24, 19),
+    (24, 23),
+    (24, 25),
     (24, 17),
     (24, 20),
     (24, 21),
@@ -35,7 +42,7 @@ const DT_EDGES: [(u32, u32); 19] = [
     (28, 7),
     (28, 9),
 ];
-const DTS: [u32; 20] = [1, 2, 3, 4, 5, 6, 7, 8, 9, 10, 11, 12, 15, 17, 20, 21, 24, 26, 27, 28];
+const DTS: [u32; 28] = [1, 2, 3, 4, 5, 6, 7, 8, 9, 10, 11, 12, 13, 14, 15, 16, 17, 18, 19, 20, 21, 22, 23, 24, 25, 26, 27, 28];
 
 /// reference representation of values (mirrors the token syntax, not the model)
 #[derive(Clone, Debug, PartialEq)]
@@ -46,6 +53,8 @@ enum E {
     NodeId(u32),
     QName,
     LText,
+    /// every other scalar kind (builtin type id, payload tag)
+    Opaque(u32, u32),
 }
 #[derive(Clone, Debug, PartialEq)]
 enum V {
@@ -62,6 +71,7 @@ fn e_ty(e: &E) -> u32 {
         E::NodeId(_) => 17,
         E::QName => 20,
         E::LText => 21,
+        E::Opaque(t, _) => *t,
     }
 }
 
@@ -90,6 +100,16 @@ fn parse_e(s: &str) -> Option<E> {
             return None;
         }
         r.parse::<u32>().ok().map(E::NodeId)
+    } else if let Some(r) = s.strip_prefix('o') {
+        let (t, x) = r.split_once(':')?;
+        if t.starts_with('+') || x.starts_with('+') {
+            return None;
+        }
+        let (t, x): (u32, u32) = (t.parse().ok()?, x.parse().ok()?);
+        if ![13, 14, 16, 18, 19, 22, 23, 24, 25].contains(&t) || x >= 1000 {
+            return None;
+        }
+        Some(E::Opaque(t, x))
     } else if s == "Q" {
         Some(E::QName)
     } else if s == "L" {
@@ -131,6 +151,7 @@ fn show_e(e: &E) -> String {
         E::NodeId(n) => format!("N{}", n),
         E::QName => "Q".to_string(),
         E::LText => "L".to_string(),
+        E::Opaque(t, x) => format!("o{}:{}", t, x),
     }
 }
 
@@ -163,6 +184,21 @@ fn to_scalar(e: &E) -> Option<Variant> {
         E::NodeId(n) => Variant::NodeId(Box::new(NodeId::new(0, *n))),
         E::QName => Variant::QualifiedName(Box::new(QualifiedName::new(0, "q"))),
         E::LText => Variant::LocalizedText(Box::new(LocalizedText::new("", "l"))),
+        E::Opaque(13, x) => Variant::DateTime(Box::new(DateTime::from(*x as i64 * 10_000_000 + 131_000_000_000_000_000))),
+        E::Opaque(14, x) => {
+            let mut bytes = [7u8; 16];
+            bytes[0] = *x as u8;
+            bytes[1] = (*x >> 8) as u8;
+            Variant::Guid(Box::new(Guid::from_bytes(bytes)))
+        }
+        E::Opaque(16, x) => Variant::XmlElement(XmlElement::from(format!("<x>{}</x>", x))),
+        E::Opaque(18, x) => Variant::ExpandedNodeId(Box::new(ExpandedNodeId::new(NodeId::new(0, *x)))),
+        E::Opaque(19, x) => Variant::StatusCode(StatusCode::from_bits_truncate(if *x == 0 { 0 } else { 0x8000_0000 | (*x << 16) })),
+        E::Opaque(22, x) => Variant::ExtensionObject(Box::new(ExtensionObject { node_id: NodeId::new(0, *x), body: ExtensionObjectEncoding::None })),
+        E::Opaque(23, x) => Variant::DataValue(Box::new(DataValue::value_only(Variant::UInt32(*x)))),
+        E::Opaque(24, x) => Variant::Variant(Box::new(Variant::UInt32(*x))),
+        E::Opaque(25, x) => Variant::DiagnosticInfo(Box::new(DiagnosticInfo { symbolic_id: Some(*x as i32), ..Default::default() })),
+        E::Opaque(_, _) => return None,
     })
 }
 
@@ -184,6 +220,15 @@ fn vtype(t: u32) -> Option<VariantTypeId> {
         17 => VariantTypeId::NodeId,
         20 => VariantTypeId::QualifiedName,
         21 => VariantTypeId::LocalizedText,
+        13 => VariantTypeId::DateTime,
+        14 => VariantTypeId::Guid,
+        16 => VariantTypeId::XmlElement,
+        18 => VariantTypeId::ExpandedNodeId,
+        19 => VariantTypeId::StatusCode,
+        22 => VariantTypeId::ExtensionObject,
+        23 => VariantTypeId::DataValue,
+        24 => VariantTypeId::Variant,
+        25 => VariantTypeId::DiagnosticInfo,
         _ => return None,
     })
 }
@@ -225,6 +270,27 @@ fn from_scalar(v: &Variant) -> Option<E> {
         },
         Variant::QualifiedName(_) => E::QName,
         Variant::LocalizedText(_) => E::LText,
+        Variant::DateTime(d) => E::Opaque(13, ((d.ticks() - 131_000_000_000_000_000) / 10_000_000) as u32),
+        Variant::Guid(g) => E::Opaque(14, g.as_bytes()[0] as u32 | (g.as_bytes()[1] as u32) << 8),
+        Variant::XmlElement(x) => E::Opaque(16, x.as_ref().trim_start_matches("<x>").trim_end_matches("</x>").parse().ok()?),
+        Variant::ExpandedNodeId(n) => match n.node_id.identifier {
+            Identifier::Numeric(x) => E::Opaque(18, x),
+            _ => return None,
+        },
+        Variant::StatusCode(c) => E::Opaque(19, (c.bits() & 0x7fff_ffff) >> 16),
+        Variant::ExtensionObject(o) => match o.node_id.identifier {
+            Identifier::Numeric(x) => E::Opaque(22, x),
+            _ => return None,
+        },
+        Variant::DataValue(d) => match d.value {
+            Some(Variant::UInt32(x)) => E::Opaque(23, x),
+            _ => return None,
+        },
+        Variant::Variant(v) => match **v {
+            Variant::UInt32(x) => E::Opaque(24, x),
+            _ => return None,
+        },
+        Variant::DiagnosticInfo(d) => E::Opaque(25, d.symbolic_id? as u32),
         _ => return None,
     })
 }
@@ -247,6 +313,15 @@ fn type_num(t: VariantTypeId) -> u32 {
         VariantTypeId::NodeId => 17,
         VariantTypeId::QualifiedName => 20,
         VariantTypeId::LocalizedText => 21,
+        VariantTypeId::DateTime => 13,
+        VariantTypeId::Guid => 14,
+        VariantTypeId::XmlElement => 16,
+        VariantTypeId::ExpandedNodeId => 18,
+        VariantTypeId::StatusCode => 19,
+        VariantTypeId::ExtensionObject => 22,
+        VariantTypeId::DataValue => 23,
+        VariantTypeId::Variant => 24,
+        VariantTypeId::DiagnosticInfo => 25,
         _ => 999,
     }
 }
@@ -509,6 +584,63 @@ fn value_cases(out: &mut Vec<String>) {
     }
 }
 
+/// a sample scalar token of each of the 25 Variant scalar kinds
+fn kind_token(t: u32, k: u32) -> String {
+    match t {
+        1 => format!("i1:{}", k % 2),
+        2..=9 => format!("i{}:{}", t, k + 1),
+        10 => "i10:1065353216".to_string(),
+        11 => "i11:4607182418800017408".to_string(),
+        12 => format!("s{}", hex(format!("é{}", k).as_bytes())),
+        15 => format!("x0{}0a", k % 10),
+        17 => format!("N{}", k + 1),
+        20 => "Q".to_string(),
+        21 => "L".to_string(),
+        _ => format!("o{}:{}", t, k + 1),
+    }
+}
+
+/// EVERY Variant scalar kind (Boolean … DiagnosticInfo) and arrays of each, as stored value and as
+/// written value, × every index-range shape
+fn kind_cases(out: &mut Vec<String>) {
+    let ranges = ["sn".to_string(), "s".to_string(), hexs("0"), hexs("1"), hexs("5"), hexs("0:2"), hexs("1:9"), hexs("0,1"), hexs("x")];
+    for t in 1u32..=25 {
+        // scalar stored in a BaseDataType variable and in a variable of its own type
+        for dt in [24u32, t] {
+            out.push("reset".to_string());
+            out.push(format!("var 1 {} -1 3 {}", dt, kind_token(t, 0)));
+            out.push(format!("var 2 {} 1 3 a{}:[{},{},{}]", dt, t, kind_token(t, 0), kind_token(t, 1), kind_token(t, 2)));
+            out.push(format!("var 3 {} 1 3 a{}:[]", dt, t));
+            for id in 1..=3 {
+                for r in &ranges {
+                    out.push(format!("read {} 13 {}", id, r));
+                }
+            }
+            for id in 1..=3 {
+                for r in &ranges {
+                    out.push(format!("write {} 13 {} {}", id, r, kind_token(t, 3)));
+                    out.push(format!("write {} 13 {} a{}:[{},{}]", id, r, t, kind_token(t, 4), kind_token(t, 5)));
+                    out.push(format!("write {} 13 {} a{}:[]", id, r, t));
+                    out.push(format!("read {} 13 {}", id, r));
+                    out.push(format!("read {} 13 sn", id));
+                }
+            }
+        }
+        // written into variables of unrelated types (type check), and every kind into an array of another kind
+        out.push("reset".to_string());
+        out.push("var 1 6 -1 3 i6:1".to_string());
+        out.push("var 2 12 1 3 a12:[s61,s62]".to_string());
+        out.push("var 3 26 -1 3 i11:0".to_string());
+        for id in 1..=3 {
+            for r in ["sn".to_string(), hexs("0"), hexs("0:1")] {
+                out.push(format!("write {} 13 {} {}", id, r, kind_token(t, 0)));
+                out.push(format!("write {} 13 {} a{}:[{}]", id, r, t, kind_token(t, 1)));
+            }
+            out.push(format!("read {} 13 sn", id));
+        }
+    }
+}
+
 impl Prop for C32 {
     fn id(&self) -> &'static str {
         "C32"
@@ -518,6 +650,7 @@ impl Prop for C32 {
         // systematic part (independent of n and of the seed): the whole API surface once
         surface_cases(out);
         value_cases(out);
+        kind_cases(out);
         for _ in 0..n {
             out.push("reset".to_string());
             let nv = rng.range(1, 4) as u32;
